@@ -312,7 +312,7 @@ type base struct {
 func main() { harness.Main("C02", "model_checking", run) }
 
 func run(r *harness.Run) {
-	r.Rule("explicit-state search: start objects = every subset of <=2 members (and the triples of the five entries that differ in key shape; thorough: every subset of <=4) from a 10-key menu (keys needing escapes, dotted keys, non-ASCII, and nested members that are themselves named signatures / unsigned) with typed values (big integers, nested objects/arrays, strings with <&>), optionally carrying a foreign signature and/or unsigned, plus wide objects (129 / 257 / 300 members, thorough 64 ... 1025; flat and nested; depth 2 over sign x2 / re-serialise x2); operation alphabet (10): sign by 3 identities (two key IDs of one entity, one other entity), re-serialise in 3 non-canonical presentations, set/replace/delete unsigned, add a foreign signature; all sequences up to depth D. After every transition: VerifyJSON for every identity == reference (signed set), signature bytes == ed25519 over refjson canonical form, wrong name/key ID/public key refused, ListKeyIDs == reference. On every distinct reached state: every single-member mutation (value change incl. +1 on integers, insert, delete, rename, nested edit, array edits) must fail verification; mutations confined to unsigned / foreign signatures must not. Non-trivial = distinct state text with >=1 signature.")
+	r.Rule("explicit-state search: start objects = every subset of <=2 members (and the triples of the five entries that differ in key shape; thorough: every subset of <=4) from a 10-key menu (keys needing escapes, dotted keys, non-ASCII, and nested members that are themselves named signatures / unsigned) with typed values (big integers, nested objects/arrays, strings with <&>), optionally carrying a foreign signature and/or unsigned, plus wide objects (129 / 257 / 300 members, thorough 64 ... 1025; flat and nested; depth 2 over sign x2 / re-serialise x2); operation alphabet (11): sign by 3 identities (two key IDs of one entity, one other entity), re-serialise in 3 non-canonical presentations, set/replace/delete unsigned, add a foreign signature, change a signed member (all signatures made so far go stale and must be replaced when their owner signs again); all sequences up to depth D. After every transition: VerifyJSON for every identity == reference (signed set), signature bytes == ed25519 over refjson canonical form, wrong name/key ID/public key refused, ListKeyIDs == reference. On every distinct reached state: every single-member mutation (value change incl. +1 on integers, insert, delete, rename, nested edit, array edits) must fail verification; mutations confined to unsigned / foreign signatures must not. Non-trivial = distinct state text with >=1 signature.")
 	r.Assume("ed25519 is deterministic and trusted", "objects with duplicate keys are outside the property")
 	type replayIn struct {
 		Start string
@@ -360,7 +360,7 @@ func run(r *harness.Run) {
 		entry := &refjson.Value{Kind: refjson.Object, Members: []refjson.Member{{Key: foreign.KeyID, Val: &refjson.Value{Kind: refjson.String, Str: sig}}}}
 		return refjson.Emit(nil, with(v, "signatures", with(sigs, foreign.Server, entry)), true)
 	}
-	opNames := []string{"sign0", "sign1", "sign2", "pres1", "pres2", "pres3", "unsigned-set", "unsigned-replace", "unsigned-delete", "foreign-sign"}
+	opNames := []string{"sign0", "sign1", "sign2", "pres1", "pres2", "pres3", "unsigned-set", "unsigned-replace", "unsigned-delete", "foreign-sign", "edit-signed"}
 	apply := func(st *state, op string) (*state, error) {
 		ns := &state{signed: map[string]bool{}, ops: append(append([]string(nil), st.ops...), op)}
 		for k := range st.signed {
@@ -413,6 +413,16 @@ func run(r *harness.Run) {
 			ns.text = refjson.Emit(nil, without(v, "unsigned"), true)
 		case op == "foreign-sign":
 			ns.text = foreignSig(st.text)
+		case op == "edit-signed":
+			// a signed member changes (a counter, so that no earlier content ever comes back): every signature made so far is
+			// stale - it stays in the object but no longer verifies - and signing again must replace it by a valid one
+			n := 1
+			if x := evgen.Get(v, "zz_edit"); x != nil {
+				fmt.Sscan(x.Num, &n)
+				n++
+			}
+			ns.text = refjson.Emit(nil, with(v, "zz_edit", &refjson.Value{Kind: refjson.Number, Num: fmt.Sprint(n)}), true)
+			ns.signed = map[string]bool{}
 		}
 		return ns, nil
 	}
